@@ -590,13 +590,6 @@ func explore(p *pool, h harnessCfg, tc tierCfg, params map[string]int, seed int6
 			st.Exhaustive = false
 		case "unsupported":
 			st.Inconclusive["unsupported: "+res.Detail]++
-		case "budget":
-			// a path that exhausts the instruction budget is a candidate hang
-			st.Violations = append(st.Violations, interp.Violation{Harness: h.Name, Kind: "budget", ID: "instruction-budget", Detail: res.Detail,
-				Choices: res.Choices, Tags: res.Tags, Decisions: res.Decisions, Inputs: res.SampleInputs})
-		case "deadlock":
-			st.Violations = append(st.Violations, interp.Violation{Harness: h.Name, Kind: "deadlock", ID: "deadlock", Detail: res.Detail,
-				Choices: res.Choices, Tags: res.Tags, Decisions: res.Decisions, Inputs: res.SampleInputs})
 		}
 		st.Violations = append(st.Violations, res.Violations...)
 		frontier = append(frontier, res.Siblings...)
@@ -657,6 +650,7 @@ type nativeOutcome struct {
 	Detail   string   `json:"detail"`
 	Observed []string `json:"observed"`
 	Site     string   `json:"site"`
+	Failed   []string `json:"failed"`
 }
 
 // runNative runs cases through `go test` on the real build of pkg (harness dir name).
@@ -755,8 +749,15 @@ func confirm(ov *overlaySet, pkg string, v *interp.Violation, params map[string]
 	o := outs[0]
 	switch v.Kind {
 	case "assert":
-		if o.Status == "assert" && o.ID == v.ID {
-			return true, "native run fails assertion " + o.ID
+		if o.Status == "assert" {
+			for _, f := range o.Failed {
+				if f == v.ID {
+					return true, "native run fails assertion " + f
+				}
+			}
+			if o.ID == v.ID {
+				return true, "native run fails assertion " + o.ID
+			}
 		}
 	case "panic":
 		if o.Status == "panic" {
@@ -916,7 +917,8 @@ func checkMain(prop, tier string) int {
 
 	// violations: group, confirm natively, classify
 	exit := 0
-	os.MkdirAll(filepath.Join(verifDir, "replays"), 0755)
+	replayDir := envOr("VERIF_REPLAY_DIR", filepath.Join(verifDir, "replays"))
+	os.MkdirAll(replayDir, 0755)
 	type group struct {
 		key  string
 		vs   []*interp.Violation
@@ -985,7 +987,7 @@ func checkMain(prop, tier string) int {
 			continue
 		}
 		nViol++
-		rp := filepath.Join(verifDir, "replays", fmt.Sprintf("%s-%d.json", prop, n))
+		rp := filepath.Join(replayDir, fmt.Sprintf("%s-%d.json", prop, n))
 		js, _ := json.MarshalIndent(map[string]interface{}{
 			"property": prop, "harness": cv.Harness, "pkg": pkgOfHarness(cfgs, cv.Harness), "kind": cv.Kind, "id": cv.ID, "detail": cv.Detail,
 			"inputs": cv.Inputs, "choices": cv.Choices, "params": g.prm, "tags": cv.Tags, "native": how,
@@ -1185,9 +1187,10 @@ func writeEvidence(prop, tier string, seed int64, all []*exploreStats, pc propCf
 	ev := evidence{PropertyID: prop, Tier: tier, Seed: seed, Level: "model_checking", Coverage: cov,
 		Assumptions: append([]string{"harness preconditions (verifAssume) and intrinsics listed in stubs_hit are part of the claim", "bounded: only the shapes listed in bounds are covered"}, pc.Assumptions...),
 		WallS: round1(wall), Violations: nViol}
-	os.MkdirAll(filepath.Join(verifDir, "evidence"), 0755)
+	evDir := envOr("VERIF_EVIDENCE_DIR", filepath.Join(verifDir, "evidence"))
+	os.MkdirAll(evDir, 0755)
 	js, _ := json.MarshalIndent(ev, "", " ")
-	os.WriteFile(filepath.Join(verifDir, "evidence", prop+".json"), js, 0644)
+	os.WriteFile(filepath.Join(evDir, prop+".json"), js, 0644)
 }
 
 func round1(f float64) float64 { return float64(int(f*10+0.5)) / 10 }
